@@ -44,7 +44,67 @@ def flag_fold(param, value):
     return fold
 
 
+def _len_expr(d, e):
+    """(base text, offset) such that len(e) == len(base) + offset, for names and `x[k:]` slices"""
+    if isinstance(e, ast.Name):
+        v = d.single(e.id)
+        if v is not None:
+            return _len_expr(d, v)
+        return (e.id, 0)
+    if isinstance(e, ast.Subscript) and isinstance(e.slice, ast.Slice) and e.slice.upper is None and e.slice.step is None:
+        lo = e.slice.lower
+        k = 0 if lo is None else (lo.value if isinstance(lo, ast.Constant) and isinstance(lo.value, int) and lo.value >= 0 else None)
+        if k is None:
+            return None
+        b = _len_expr(d, e.value)
+        return None if b is None else (b[0], b[1] - k)
+    if isinstance(e, ast.Call) and U(e.func) in ("list", "np.array", "np.asarray", "tuple") and len(e.args) == 1:
+        return _len_expr(d, e.args[0])
+    if isinstance(e, ast.Attribute):
+        return (U(e), 0)
+    return None
+
+
+def as_dict_roundtrip(repo, res, rid):
+    """the recorded population-size history must rebuild the object: as_dict emits `time_breaks`
+    exactly when there is at least one break beyond the implicit leading 0, i.e. the guard of the
+    store is equivalent to `len(<stored value>) > 0`"""
+    from ..base import Defs, bool_guards
+
+    f = repo.fn("demography", "PopulationSizeHistory.as_dict")
+    d = Defs(f)
+    st = [(x, g) for x, g in stmts(f) if isinstance(x, ast.Assign) and isinstance(x.targets[0], ast.Subscript) and "time_breaks" in U(x.targets[0].slice)]
+    if len(st) != 1:
+        raise AnalysisError(f"{rid}: the store of 'time_breaks' in PopulationSizeHistory.as_dict was not found")
+    x, g = st[0]
+    val = _len_expr(d, x.value)
+    conds = [(e, pol) for e, pol in bool_guards(g)]
+    ok, why = False, "guard shape not recognised"
+    if val is not None and len(conds) == 1 and conds[0][1] and isinstance(conds[0][0], ast.Compare) and len(conds[0][0].ops) == 1:
+        c = conds[0][0]
+        l, op, r = c.left, c.ops[0], c.comparators[0]
+        if isinstance(l, ast.Call) and U(l.func) == "len" and isinstance(r, ast.Constant) and isinstance(r.value, int):
+            ce = _len_expr(d, l.args[0])
+            if ce is not None and ce[0] == val[0]:
+                # len(base) + ce_off  OP  k    must be equivalent to    len(base) + val_off > 0
+                k = r.value - ce[1]  # condition: len(base) OP' k
+                need = -val[1]  # len(base) > need
+                if isinstance(op, ast.Gt):
+                    ok = k == need
+                elif isinstance(op, ast.GtE):
+                    ok = k - 1 == need
+                why = f"the guard holds iff len({ce[0]}) {'>' if isinstance(op, ast.Gt) else '>='} {k}, the stored list is non-empty iff len({val[0]}) > {need}"
+    res.require(ok, rid, "demography.PopulationSizeHistory.as_dict emits time_breaks exactly when the history has breaks", f"`{U(x)}` under `{U(conds[0][0]) if conds else None}`: {why}; a history whose number of epochs falls in the gap is recorded without its breaks, so the provenance record does not name the parameters used and cannot rebuild the object", repo.loc(f, x), why)
+    ps = [v for v in ast.walk(f) if isinstance(v, ast.Dict)]
+    okp = any("population_size" in U(k_) and U(v_).replace(" ", "") in ("list(self.population_size/2)", "list(self.population_size/2.0)") for dct in ps for k_, v_ in zip(dct.keys, dct.values))
+    init = repo.fn("demography", "PopulationSizeHistory.__init__")
+    oki = any(isinstance(n, ast.Assign) and U(n.targets[0]) == "self.population_size" and U(n.value).replace(" ", "").startswith("2*") for n in ast.walk(init))
+    res.require(okp and oki, rid, "demography.PopulationSizeHistory.as_dict halves the doubled sizes the constructor stores", "population_size is not the inverse of the constructor's `2 * population_size`", repo.loc(f))
+
+
 def run(repo, res):
+    res.rule("R33.5", "the recorded population_size rebuilds the history: PopulationSizeHistory.as_dict (whose result core.py stores in the record) inverts the constructor -- sizes halved, time_breaks emitted exactly when there is a break beyond the implicit 0")
+    as_dict_roundtrip(repo, res, "R33.5")
     res.rule("R33.1", "path count over get_modified_ts, preprocess_ts and split_disjoint_nodes: provenance-adding effects (record_provenance, tskit operations that record by default unless passed the literal record_provenance=False, tsdate callees likewise) number exactly 1 on every returning path with recording on and 0 with recording off; the flag reaches the guard unchanged from the API")
     res.rule("R33.2", "no truncating access to the provenance table")
     res.rule("R33.3", "the recorded command is the method's own name, which equals its registry key and wrapper function; preprocessing records 'preprocess_ts'")
@@ -155,6 +215,8 @@ def run(repo, res):
 
 
 VARIANTS = [
+    dict(name="two-epoch-history-loses-breaks", mod="demography", expect="fire", rule="R33.5", old="        if len(self.time_breaks) > 1:\n            ret_val[\"time_breaks\"] = list(self.time_breaks[1:])", new="        time_breaks = self.time_breaks[1:]\n        if len(time_breaks) > 1:\n            ret_val[\"time_breaks\"] = list(time_breaks)"),
+    dict(name="twin-breaks-via-local", mod="demography", expect="silent", old="        if len(self.time_breaks) > 1:\n            ret_val[\"time_breaks\"] = list(self.time_breaks[1:])", new="        time_breaks = self.time_breaks[1:]\n        if len(time_breaks) > 0:\n            ret_val[\"time_breaks\"] = list(time_breaks)"),
     dict(name="simplify-records-too", mod="util", expect="fire", rule="R33.1", old="            filter_sites=filter_sites,\n            record_provenance=False,\n            **kwargs,\n        )\n    else:", new="            filter_sites=filter_sites,\n            **kwargs,\n        )\n    else:"),
     dict(name="split-records-inside-preprocess", mod="util", expect="fire", rule="R33.1", old="        ts = split_disjoint_nodes(tables.tree_sequence(), record_provenance=False)", new="        ts = split_disjoint_nodes(tables.tree_sequence())"),
     dict(name="delete-intervals-records", mod="util", expect="fire", rule="R33.1", old="        tables.delete_intervals(delete_intervals, simplify=False, record_provenance=False)", new="        tables.delete_intervals(delete_intervals, simplify=False)"),
